@@ -868,7 +868,7 @@ fn run<W: C10Word>(ctx: &mut Ctx, salt: u64) {
     let maxlen_for = |width: usize| -> usize { ((bits / width.max(1)).max(1) * 5 + 3).min(maxlen_cap) };
 
     // ---- copy, per branch class
-    let quota = ctx.scale(1, 12, 60);
+    let quota = ctx.scale(1, 30, 100);
     let attempts = ctx.scale(400, 60000, 400000);
     let mut g = ctx.rng(0xC0B1 ^ salt);
     let cw: Vec<usize> = if ctx.small { widths.clone() } else { (0..=bits).collect() };
@@ -1053,7 +1053,7 @@ fn main() {
             });
         }
     }
-    for r in 0..ctx.scale(2, 150, 1500) {
+    for r in 0..ctx.scale(2, 1000, 4000) {
         let tail = Tail::ALL[r % Tail::ALL.len()];
         ctx.case("BitVec", &format!("wordwise/{}", tail.name()), "bitvec_bulk", |c| {
             let len = if c.rng().random_bool(0.5) { 64 * c.rng().random_range(0..12usize) + [0usize, 1, 63][c.rng().random_range(0..3)] } else { c.rng().random_range(0..900usize) };
@@ -1069,7 +1069,9 @@ fn main() {
     }
 
     // random rounds on top
-    let rounds = ctx.scale(0, 400, 6000) as u64;
+    let rounds = ctx.scale(0, 5000, 12000) as u64;
+    // ASan runs about four times slower: a quarter of the random rounds
+    let rounds = if ctx.build == "ASAN" { rounds / 4 } else { rounds };
     for r in 0..rounds {
         random_round::<u8>(&mut ctx, r);
         random_round::<u16>(&mut ctx, r);
